@@ -12,7 +12,7 @@ def check(ctx):
     ctx.assumptions += [
         "the protocol model's steps are the critical actions of loop / probe / Stop; that the code performs them in that order and that only the loop goroutine calls healthCheckWg.Add is re-derived from the source on every run (fact shutdown_protocol)",
         "fair scheduling: a goroutine that can step eventually does (stop_no_deadlock shows one always can); Go's select eventually takes the ctx.Done case",
-        "draining of in-flight client requests is http.Server.Shutdown (stdlib), called before Stop (fact gracefulSequence); signal delivery and process exit are outside the model",
+        "draining of in-flight client requests is http.Server.Shutdown (stdlib), called before Stop (fact gracefulSequence); signal delivery and process exit are outside the model and observed on the real binary (one and repeated stop signals with a request in flight)",
         "implementation runs use the wall clock: Stop placements are sampled, not enumerated",
     ]
     ok = C.prove(ctx, MODULES, THEOREMS)
@@ -61,16 +61,25 @@ def check(ctx):
         if cls:
             C.violation(ctx, "pool-shutdown-" + cls[0], {"what": "the janitor pass overlapping Shutdown: " + cls[0],
                                                          "test": "TestVerifCleanupShutdown", "env": env, "report": cls[1]})
+    if not any(v["kind"].startswith("pool-shutdown") for v in ctx.violations):
+        rc, out = c12.run_workload(ctx, binary, "TestVerifCleanupWindow", {})
+        cls = c12.classify(rc, out)
+        if cls:
+            C.violation(ctx, "pool-shutdown-" + cls[0], {"what": "a connection put back while the janitor pass is closing a stale one must still be closed by Shutdown: " + cls[0],
+                                                         "test": "TestVerifCleanupWindow", "report": cls[1]})
     # the process-level sequence (shutdownGracefully), with the drain finishing and with the drain
     # running into the shutdown timeout
     overlay = C.make_overlay(ctx, clock_pkgs=[], harness_pkgs=["cmd/helios"], hmap={"cmd/helios": "helios"})
     hel = C.go_test_build(ctx, "cmd/helios", overlay, name="helios")
-    dg = C.Differential(ctx, hel, timeout=600, project=lambda line: line.split(" || ", 1)[0])
+    dg = C.Differential(ctx, hel, timeout=600, project=lambda line: line.split(" || ", 1)[0], confirm=2)
 
     def orc_gs(ep, outs):
         o = outs[0] if outs else ""
         return [] if o.startswith("gs returned probesAfter=0") else ["after the process-level shutdown (%s) the balancer is still probing: %s" % (ep[0], o)]
     dg.check([["gs 0"], ["gs 2500"]], oracle=orc_gs, label="graceful")
+    # the real binary: stop signals (once, repeated, mixed) while a request is in flight
+    from .. import procsig
+    procsig.check(ctx)
     ctx.cov.update({
         "evaluations": len(eps),
         "distinct_nontrivial": len(set(e[0] for e in eps if e[0].split()[3] != "0")),
